@@ -254,7 +254,7 @@ func genAuthenContinue(t *rapid.T) model.AuthenContinue {
 }
 
 func genAuthorRequest(t *rapid.T) model.AuthorRequest {
-	return model.AuthorRequest{
+	a := model.AuthorRequest{
 		Method:  rapid.SampledFrom(authenMethods).Draw(t, "method"),
 		Priv:    rapid.ByteRange(0, 15).Draw(t, "priv"),
 		AType:   rapid.SampledFrom(authenTypes0).Draw(t, "atype"),
@@ -264,6 +264,30 @@ func genAuthorRequest(t *rapid.T) model.AuthorRequest {
 		RemAddr: field(t, "rem", 1, alphaASCII),
 		Args:    genArgs(t, "args", 2),
 	}
+	if rapid.IntRange(0, 24).Draw(t, "everything_at_its_maximum") == 0 {
+		a.User, a.Port, a.RemAddr, a.Args = genFull(t)
+	}
+	return a
+}
+
+// genFull: as much as the request layouts can carry in every place at once - 254 or 255 arguments of 255
+// octets each and text fields of 0, 1, 170, 171 or 255 octets (the announced lengths add up to more than a
+// 16-bit counter holds from 171+171+171 on).
+func genFull(t *rapid.T) (user, port, rem model.B, args []model.B) {
+	n := rapid.SampledFrom([]int{255, 255, 254}).Draw(t, "full_args")
+	tile := rapid.SliceOfN(genByteIn(alphaPrint), 1, 3).Draw(t, "full_tile")
+	for i := 0; i < n; i++ {
+		b := make([]byte, 255)
+		for j := range b {
+			b[j] = tile[(i+j)%len(tile)]
+		}
+		args = append(args, b)
+	}
+	lens := []int{0, 1, 170, 171, 255, 255}
+	user = genBytes(t, "full_user", rapid.SampledFrom(lens).Draw(t, "full_user_len"), alphaPrint)
+	port = genBytes(t, "full_port", rapid.SampledFrom(lens).Draw(t, "full_port_len"), alphaPrint)
+	rem = genBytes(t, "full_rem", rapid.SampledFrom(lens).Draw(t, "full_rem_len"), alphaPrint)
+	return
 }
 
 func genAuthorReply(t *rapid.T) model.AuthorReply {
@@ -276,7 +300,7 @@ func genAuthorReply(t *rapid.T) model.AuthorReply {
 }
 
 func genAcctRequest(t *rapid.T) model.AcctRequest {
-	return model.AcctRequest{
+	a := model.AcctRequest{
 		Flags:   genAcctFlags(t),
 		Method:  rapid.SampledFrom(authenMethods).Draw(t, "method"),
 		Priv:    rapid.ByteRange(0, 15).Draw(t, "priv"),
@@ -287,6 +311,10 @@ func genAcctRequest(t *rapid.T) model.AcctRequest {
 		RemAddr: field(t, "rem", 1, alphaASCII),
 		Args:    genArgs(t, "args", 0),
 	}
+	if rapid.IntRange(0, 24).Draw(t, "everything_at_its_maximum") == 0 {
+		a.User, a.Port, a.RemAddr, a.Args = genFull(t)
+	}
+	return a
 }
 
 func genAcctReply(t *rapid.T) model.AcctReply {
